@@ -24,7 +24,7 @@ type Config struct {
 	LinkIntents []string // overrides the set of link intents
 }
 
-var plainNames = []string{"a", "b", "c", "foo", "bar", "x.txt", "main.tf", "README.md", "mod", "sub", "data", "baz.txt"}
+var plainNames = []string{"a", "b", "c", "A", "Foo", "foo", "bar", "x.txt", "main.tf", "README.md", "mod", "sub", "data", "baz.txt"}
 var ignoreNames = []string{".git", ".terraform", "modules", "terraform.d", ".terraform", ".git"}
 var awkwardNames = []string{
 	"with space", "-dash", ".hidden", "a+b", "(paren)", "[br]", "{cur}", "pipe|x", "^car", "$dol", "#hash", "!bang", "star*", "q?",
@@ -328,6 +328,13 @@ func build(specs []spec, cfg Config) fsx.Tree {
 				n.Target = ups + "../src"
 			} else {
 				n.Target = ups + "../src/" + files[pick%len(files)]
+			}
+			// the climb may be hidden behind a leading "./" or a name that is left again
+			switch (pick / 7) % 3 {
+			case 1:
+				n.Target = "./" + n.Target
+			case 2:
+				n.Target = "zz/../" + n.Target
 			}
 		default:
 			n.Target = "missing"
